@@ -308,7 +308,7 @@ def slice_of(eng, p, base, lo, hi):
             # slice of an array-modelled list: result as z3 sequence is not available; model as a fresh slist with pointwise facts
             n = c[2]; a = bound(lo, n, IntVal(0)); b = bound(hi, n, n)
             eng.oblige(p, 'slice.bounds', And(a >= 0, a <= b, b <= n), 'pre')
-            return Host('arrslice', arr=c[1], lo=a, hi=b, kind=c[3])
+            return Host('arrslice', arr=c[1], lo=a, hi=b, ek=c[3])
     if isinstance(base, (SStr, SBytes, SSeq)):
         n = Length(base.t); a = bound(lo, n, IntVal(0)); b = bound(hi, n, n)
         eng.oblige(p, 'slice.bounds', And(a >= 0, a <= b, b <= n), 'pre')
@@ -319,17 +319,44 @@ def slice_of(eng, p, base, lo, hi):
     raise Unsupported(f'slice of {base!r}')
 
 
+def arrslice_items(eng, x):
+    n = simplify(x.hi - x.lo)
+    if not is_int_value(n):
+        return None
+    return [wrap(eng, Select(x.arr, x.lo + t), x.ek) for t in range(n.as_long())]
+
+
 def all_of(eng, p, x):
+    if isinstance(x, Host) and x.kind == 'arrslice':
+        items = arrslice_items(eng, x)
+        if items is not None:
+            cs = [eng.truth(p, i) for i in items]
+            if any(c is False for c in cs): return [(p, False)]
+            cs = [c for c in cs if c is not True]
+            return [(p, SBool(And(*cs)) if cs else True)]
     if isinstance(x, Host) and x.kind == 'arrslice':
         j = fresh('all_j', IntSort())
         from z3 import ForAll
-        if x.kind == 'int' or True:
-            body = truthy(Select(x.arr, j)) if x.kind == 'val' else V.i(Select(x.arr, j)) != 0
+        body = truthy(Select(x.arr, j)) if x.ek == 'val' else V.i(Select(x.arr, j)) != 0
         return [(p, SBool(ForAll([j], Implies(And(j >= x.lo, j < x.hi), body))))]
     raise Unsupported(f'all({x!r})')
 
 
+seqsum_real = Function('seqsum', SeqSort(z3.RealSort()), z3.RealSort())
+
+
 def sum_of(eng, p, x):
+    from .world import trusted
+    trusted('builtins.sum: the sum of the elements (spec function seqsum)')
+    if isinstance(x, Ref):
+        c = p.heap[x.oid]
+        if c[0] == 'slist' and c[2] == 'real':
+            return [(p, SReal(seqsum_real(c[1])))]
+        if c[0] == 'list':
+            t = 0
+            for it in c[1]:
+                t = eng.binop(p, __import__('ast').Add(), t, it)
+            return [(p, t)]
     raise Unsupported('sum over symbolic list')
 
 
